@@ -28,8 +28,8 @@ fn arg_values() -> Vec<V> {
     ]
 }
 
-const INDEXES: &[&str] = &["", "0", "1", "2"];
-const FILLS: &[&str] = &["", "*", "0", "-", "_", "x", "b", ":", " ", "9"];
+const INDEXES: &[&str] = &["", "0", "1", "2", "99", "18446744073709551615"];
+const FILLS: &[&str] = &["", "*", "0", "-", "_", "x", "b", ":", " ", "9", "{"];
 const ALIGNS: &[&str] = &["<", ">"];
 const WIDTHS: &[&str] = &["", "0", "1", "3", "5", "12"];
 const TYPES: &[&str] = &["", "b", "o", "x", "X"];
@@ -332,7 +332,10 @@ impl Property for P12 {
                 let sp = &self.specs[*s];
                 // the selected argument sits where the specifier looks for it; the other slots hold markers
                 let mut args = vec![V::Str("M0".into()), V::Str("M1".into()), V::Str("M2".into())];
-                args[sp.index.unwrap_or(0)] = self.vals[*v].clone();
+                // (an index beyond the three slots selects nothing: the specifier has no matching argument)
+                if sp.index.unwrap_or(0) < args.len() {
+                    args[sp.index.unwrap_or(0)] = self.vals[*v].clone();
+                }
                 let segs = vec![Seg::Lit("<".into()), Seg::Spec(sp.clone()), Seg::Lit(">".into())];
                 let (o, verdict) = judge(&fmt_text(&segs), &args, &segs);
                 let class = format!(
